@@ -15,7 +15,7 @@ from a816.exceptions import SymbolNotDefined
 from a816.parse.ast.expression import eval_expression
 from a816.parse.ast.nodes import BlockAstNode, ExpressionAstNode
 from a816.parse.tokens import Token
-from a816.symbols import Resolver
+from a816.symbols import Resolver, Scope
 from script import Table
 
 logger = logging.getLogger("a816.nodes")
@@ -110,18 +110,27 @@ class SymbolNode(NodeProtocol):
         symbol_name: str,
         expression: ExpressionAstNode | BlockAstNode,
         resolver: Resolver,
+        evaluation_scope: Scope | None = None,
     ) -> None:
         self.symbol_name = symbol_name
         self.expression = expression
         self.resolver = resolver
+        # scope the expression is evaluated in when it is not the scope the symbol is bound in (deferred macro arguments)
+        self.evaluation_scope = evaluation_scope
 
     def emit(self, current_addr: Address) -> bytes:
         return b""
 
     def pc_after(self, current_pc: Address) -> Address:
         assert isinstance(self.expression, ExpressionAstNode)
-        value = eval_expression(self.expression, self.resolver)
-        self.resolver.current_scope.add_symbol(self.symbol_name, value)
+        binding_scope = self.resolver.current_scope
+        if self.evaluation_scope is not None:
+            self.resolver.current_scope = self.evaluation_scope
+        try:
+            value = eval_expression(self.expression, self.resolver)
+        finally:
+            self.resolver.current_scope = binding_scope
+        binding_scope.add_symbol(self.symbol_name, value)
         return current_pc
 
     def __str__(self) -> str:
